@@ -72,7 +72,14 @@ Definition run_dir (v : val) : val :=
               | VL [VN 2; _] => []
               | _ => [dclause "panic-or-malformed"]
               end in
-          VL (finding K_TAG tag (VL []) (VL []) :: cmp_field F_D_RES model obs ++ oracle)
+          (* which of its defects a rejected path is blamed for is not constrained ("returns an error"):
+             compared under its own field name *)
+          let norm := fun v => match v with VL [VN 0; _] => VL [VN 0] | _ => v end in
+          VL (finding K_TAG tag (VL []) (VL []) :: cmp_field F_D_RES (norm model) (norm obs)
+              ++ (match model, obs with
+                  | VL [VN 0; a], VL [VN 0; b] => cmp_field (F_D_RES ++ bs ".reason") a b
+                  | _, _ => []
+                  end) ++ oracle)
       | _, _ => VL [finding K_BAD (bs "dir") (VL []) (VL [])]
       end
   | _ => VL [finding K_BAD (bs "dir") (VL []) (VL [])]
